@@ -160,7 +160,34 @@ def r06_5(ctx):
            else "%s classifies whitespace with a non-ASCII predicate: NBSP or U+3000 outside body would be treated as inter-element whitespace" % bad)
 
 
+def r06_7(ctx):
+    """a frameset document: after <frameset> replaced <body> the current node is html, so nothing may insert an element there.
+    Character tokens that the frameset modes hand to the in-body rules run 'reconstruct the active formatting elements', which
+    inserts elements at the current node unless the list was emptied when the body was replaced."""
+    key, step = nfq.cells(ctx, TB, "rules::TreeBuilder<Handle,Sink>::step")
+    step = nfq.feasible(step)
+    replaced = [pc for pc in step if pc["guards"].get("p1 matches InBody") is True and any(v and "name:atom:frameset" in k and "StartTag" in k for k, v in pc["guards"].items())
+                and "self.sink.remove_from_parent" in nfq.names(pc)]
+    if not replaced:
+        raise AnchorMissing("the in-body <frameset> path that detaches the body element was not found")
+    cleared = all(any("active_formatting" in a and ("clear" in a or "truncate" in a) for a in nfq.names(pc)) for pc in replaced)
+    n = 0
+    for mode in ("InFrameset", "AfterFrameset", "AfterAfterFrameset"):
+        deleg = [pc for pc in step if pc["guards"].get("p1 matches " + mode) is True and any(v and k.startswith("p2 matches Characters(") for k, v in pc["guards"].items())
+                 and any(a == "self.step" and [str(x) for x in args] == ["InBody", "p2"] for a, args in pc["actions"])]
+        if not deleg:
+            continue
+        n += 1
+        ctx.ob("R06.7", "frameset-document-reconstructs-formatting/" + mode, cleared,
+               "the list of active formatting elements is emptied when <frameset> replaces <body>" if cleared else
+               "mode %s hands whitespace to the in-body rules, which reconstruct the active formatting elements; the list is not emptied when <frameset> replaces <body>, so an element left there (e.g. <b>) is re-created as a child of html after the frameset" % mode,
+               "html5ever tree_builder rules.rs step (InBody <frameset>, %s characters)" % mode)
+    ctx.floor("R06.7", "frameset-modes-delegating-characters", n, 1)
+
+
 def run(ctx):
+    ctx.rule("R06.7", "in a frameset document no formatting element is reconstructed under html")
+    ctx.guard("R06.7", "frameset-formatting", lambda: r06_7(ctx))
     ctx.rule("R06.1", "only comments and the create_root element are appended to the document; create_root once, leaving BeforeHtml")
     ctx.rule("R06.2", "Initial/BeforeHtml insert nothing; head-level modes append text only for whitespace tokens; implied head/body; head popped before AfterHead")
     ctx.rule("R06.3", "frameset replacement: frameset_ok, body detached, stack truncated, then insert")
